@@ -21,7 +21,7 @@ def f12_tree():
 
 def run(tier):
     C = Check('C03', tier)
-    C.prove('Properties/C03.v', bridges={'Properties/C03T.v': [], 'Properties/C03W.v': [], 'Model/Recover.v': []})
+    C.prove('Properties/C03.v', bridges={'Properties/C03T.v': [], 'Properties/C03W.v': [], 'Model/Recover.v': [], 'Properties/C03R.v': []})
     C.cov['tie']['protocol_code_generator + generated code'] = ('correspondence-only: real generator + generated deserializers executed; reference semantics '
                                                                'Model/Elab.v + Model/Deser.v over the reader model R')
     quick = tier == 'quick'
@@ -50,6 +50,10 @@ def run(tier):
                                                        dict(op='deser', cls='SplitLen', data=[2, 3, 0xFF, 65, 66], chunked=False)])
     run_entries(C, runner, entries + [f4, f12])
     recover_stream(C, entries, 'c03')
+    render_stream(C, entries, 'c03')
+    C.cov['tie']['generated deserialize methods (semantics)'] = ('way 1 for generated code: tools/py2stmt.py parses every generated deserialize method from the SOURCE TEXT (generic, fail-closed) into the statement language of Model/PyStmtR.v; '
+                                                                'Model/RenderCheckD.v decides per tree that the statements equal render_deserialize (elab tree); Properties/C03R.v proves that running them is Model/Deser.v '
+                                                                '(every reader state, result incl. byte_size, error kind, fuel) up to the whole call tree = deser_struct')
     C.cov['tie']['generated classes (structure)'] = ('translation validation: tools/gen2instr.py recovers the instruction lists of every generated serialize / deserialize / __init__ from the SOURCE TEXT (fail-closed) and Model/Recover.v compares them with elab of the same tree (vm_compute): the theorems about the elaborated instruction lists apply to the code as emitted, for all objects and bytes')
     # ---- which classes does the termination theorem (C03_terminates_core) cover?  decided in Coq per tree
     prog = {}
